@@ -196,7 +196,7 @@ Proof.
   intros HG HR Hs.
   pose proof (gen_WI sc w tr HG) as HW. destruct (globals_released_gen sc w tr HG) as [_ Hbuf].
   assert (Hdown : forall m, pending m tr <> None -> Down m w) by (intros m H; apply (gen_down sc m w tr HG), pending_down, H).
-  destruct Hs as [stage m1 w Hfresh|w|w t ev f Hf].
+  destruct Hs as [stage m1 w Hfresh Hactive|w|w t ev f Hf].
   - (* start-up stage *)
     split; [|discriminate]. unfold start_rec. cbn [fst snd].
     assert (Hcb : forall s, CInv false 0 m1 (inc (w_mod w m1)) s -> x_log s = [] -> CInv false 0 m1 (inc (w_mod w m1)) (start_cb sc stage m1 s))
@@ -496,7 +496,7 @@ Theorem restart_runs_stages_once sc e m : In e (trace sc) -> e_kind e = KLoop (E
 Proof.
   intros Hin Hk. apply in_split in Hin. destruct Hin as (pre & post & E).
   destruct (trace_cases sc pre e post E) as [(w1 & w2 & HG & Hs)|(w & tr & now & ms1 & m1 & ms2 & _ & _ & _ & _ & ->)]; [|discriminate].
-  destruct Hs as [stage m1 w Hfresh|w|w t ev f Hf]; try discriminate.
+  destruct Hs as [stage m1 w Hfresh Hactive|w|w t ev f Hf]; try discriminate.
   unfold loop_rec in *. cbn [snd e_kind e_time e_items] in *. injection Hk as ->. unfold process.
   destruct (restart_items sc t m (set_fes w f)) as (lsys & El & Hsys). rewrite El.
   assert (Hsc : forall l k, start_calls ((l ++ lsys) ++ [ISample t k]) = start_calls l).
@@ -521,7 +521,7 @@ Theorem fresh_after_restart sc pre e post m :
 Proof.
   intros E Hk. pose proof (restart_at_requested_time sc pre e post m E Hk) as Hp.
   destruct (trace_cases sc pre e post E) as [(w1 & w2 & HG & Hs)|(w & tr & now & ms1 & m1 & ms2 & _ & _ & _ & _ & ->)]; [|discriminate].
-  destruct Hs as [stage m1 w Hfresh|w|w t ev f Hf]; try discriminate.
+  destruct Hs as [stage m1 w Hfresh Hactive|w|w t ev f Hf]; try discriminate.
   unfold loop_rec in Hk. cbn [snd e_kind] in Hk. injection Hk as ->.
   exists w, f. split; [exact HG|]. split; [|exact Hf].
   apply (gen_down sc m w pre HG), pending_down. rewrite Hp. discriminate.
